@@ -444,6 +444,39 @@ def gen_c18(r, tier, info):
             b.op(f"fin 2 256")
             b.op(f"fhash {sel} 256 {kstr(key)} {hexbytes(rbytes(r, 77))}")
             cases.append(b)
+        # the less travelled operations: provided trait methods with awkward shapes (small fragment + large one, long
+        # formatted strings, value hashing), clone_from into a used hasher, hashN on a fed hasher, alternate Debug forms
+        b = B(f"c18-{sel}-misc", [sel, "misc"])
+        key = rkey(r)
+        b.op(f"fnew 0 {sel} {kstr(key)}")
+        b.op(f"append 0 {hexbytes(rbytes(r, 13))}")
+        if sel not in gen.NO_TRAITS:
+            for tok in ("u8:7f", "u64:123456789abcdef0", "u128:ffffffffffffffffffffffffffffffff", "usize:1000", "bool:1", "char:1f600", "unit",
+                        f"bytes:{hexbytes(rbytes(r, 300))}", f"str:{hexbytes(b'x' * 700)}", f"u32s:{hexbytes(rbytes(r, 36))}", "ou64:5",
+                        f"pib:u16:7:{hexbytes(rbytes(r, 130))}"):
+                b.op(f"hwval 0 {tok}")
+            if std:
+                b.op(f"iowritev 0 {hexbytes(rbytes(r, 8))} {hexbytes(rbytes(r, 4096))} {hexbytes(rbytes(r, 3))}")
+                b.op(f"iowritev 0 {hexbytes(rbytes(r, 600))} {hexbytes(rbytes(r, 10))}")
+                b.op(f"iowritev 0 {hexbytes(rbytes(r, 40))} {hexbytes(rbytes(r, 64))} - {hexbytes(rbytes(r, 1))}")
+                b.op(f"writefmt 0 {hexbytes(b'k=' + b'v' * 900)}")
+                b.op(f"writeall 0 {hexbytes(rbytes(r, 5000))}")
+                b.op(f"iocopy 0 {hexbytes(rbytes(r, 20000))}")
+            b.op("finish 0")
+        b.op("debugx 0")
+        b.op(f"fnew 1 {sel} {kstr(rkey(r))}")
+        b.op(f"append 1 {hexbytes(rbytes(r, 40))}")
+        b.op("clonefrom 0 1")
+        b.op("ckpt 1")
+        b.op(f"hashfin 1 256 {hexbytes(rbytes(r, 1500))}")
+        b.op(f"hashone {kstr(key)} str:{hexbytes(b'q' * 300)}")
+        b.op(f"hashone {kstr(key)} pib:u32:9:{hexbytes(rbytes(r, 700))}")
+        b.op(f"bh 2 {kstr(key)}")
+        b.op("shbh 3 1")
+        b.op(f"shone 2 u64:42")
+        b.op("debugx 2")
+        b.op("fin 0 128")
+        cases.append(b)
     return cases
 
 
